@@ -79,8 +79,14 @@ def thorough_extras(project: Project, functions: set) -> dict:
     return {"paths_enumerated": paths, "path_enumeration_capped": capped, "dominance_facts_cross_checked": dom_checked, "dominance_disagreements": disagreements[:10], "per_function": per_func}
 
 
-def analyse_variant(prop: str, overrides: dict, tier: str = "quick") -> tuple:
-    """(verdict, report) for an in-memory variant of the tree: 'violation' | 'holds' | 'error'."""
+def analyse_variant(prop: str, overrides: dict, tier: str = "quick", inherited_known: bool = False) -> tuple:
+    """(verdict, report) for an in-memory variant of the tree: 'violation' | 'holds' | 'error'.
+
+    inherited_known: for behaviour-preserving variants (twins).  A known finding of the tree
+    is identified by its exact construct; a refactoring that re-spells that construct still
+    has the defect, and the report of it is the tree's, not the refactoring's - it is matched
+    by rule and function alone and not charged to the variant.  Never used by a registered
+    command, nor for variants that are expected to fire."""
     try:
         project = Project(repo_root(), overrides=overrides)
         rep = run_rules(prop, project, tier, 0)
@@ -93,6 +99,17 @@ def analyse_variant(prop: str, overrides: dict, tier: str = "quick") -> tuple:
     listed, unlisted = split_known(rep)
     for v, _ in listed:
         v.verdict = "KNOWN"
+    if inherited_known and unlisted:
+        from .report import load_known_findings
+
+        kn = [(k.get("rule"), k.get("function", "").split(".")[-1], k.get("why_contains", "")) for k in load_known_findings() if k.get("property") == prop and k.get("status") == "known"]
+        still = []
+        for v, m_ in unlisted:
+            if any(v.rule == r_ and (v.function or "").split(".")[-1] == f_ and w_ in v.why for r_, f_, w_ in kn):
+                v.verdict = "KNOWN"
+            else:
+                still.append((v, m_))
+        unlisted = still
     if unlisted:
         return "violation", rep
     if any(i.verdict == UNRECOGNISED for i in rep.instances) or any(f < m for _, f, m in rep.floors):
